@@ -12,7 +12,8 @@ Driver `qb_blackbox`: the blackbox ops of harness/log/bb_print.c run through `Mo
                                            as `log_shape` in the harness)
   `dump`           → `live K rp wp`, `wrote N`, `file HEX`   (`qb_log_blackbox_write_to_file`), then disabled
 Argument `--page N`: `sysconf(_SC_PAGESIZE)` (default 4096); `--original`: the encoder before its repairs;
-`--d32`: `_blackbox_vlogger` with the proposed repair fixes/D32-… (bound of the "too long" text).
+`--d33`: `_blackbox_vlogger` with the proposed repair fixes/D33-… (message bound min(max_line_length, QB_LOG_MAX_LEN));
+`--pre-d32`: `_blackbox_vlogger` before the repair of defect D32 (bound of the "too long" text).
 -/
 namespace QbVerif.Driver.Blackbox
 open QbVerif.Blackbox QbVerif.Ring QbVerif.Driver
@@ -109,7 +110,7 @@ def argAfter (args : List String) (key : String) : Option String :=
 def main (args : List String) : IO UInt32 := do
   let page := ((argAfter args "--page").bind (·.toNat?)).getD 4096
   let ser := if args.contains "--original" then Ser.Cfg.original else Ser.Cfg.repaired
-  let e : Env := { page := page, ser := ser, fixD32 := args.contains "--d32" }
+  let e : Env := { page := page, ser := ser, fixD32 := !args.contains "--pre-d32", fixD33 := args.contains "--d33" }
   lineLoop St.init (step e)
   return 0
 
